@@ -3,7 +3,7 @@
 EXTENDS HooksAuth, IOUtils
 Obs == JsonDeserialize(IOEnv.OBS_FILE)   \* sequence of [events, obs : provider id per operation, 0 = none]
 VARIABLE i
-JInit == /\ i \in 1..Len(Obs) /\ ahist = Obs[i].events /\ providers = [s \in AScopes |-> << >>]
+JInit == /\ i \in 1..Len(Obs) /\ ahist = Obs[i].events /\ providers = [s \in AScopes |-> << >>] /\ aorder = "AB"
 JNext == UNCHANGED <<i, avars>>
 JSpec == JInit /\ [][JNext]_<<i, avars>>
 Report == \A o \in 1..NOps :
